@@ -7,7 +7,7 @@ HOOK_COMMITS = ["e830588", "a6f2056", "d667224"]
 CHECKS = {
  "C01": dict(
   technique="runtime monitors under hostile workloads: panic hook with overflow checks and debug assertions, child-process death and per-call watchdog with isolated re-run, differential poison probes against fresh instances; Miri stage in the thorough tier",
-  text="Exploration: ~2.5e6 (quick) / ~1e8 (thorough) hostile inputs: every truncation and (strided in quick) single-bit corruption of every packet of the four bundled captures and of synthesised connections, every (kind,length,position) TCP option encoding, IP header-length grids in three framings, a link-layer grid (every assigned EtherType and a stride over all others, stacked tags, loopback family words, on frames of 0..26 octets and full length), seeded structural mutation of frames, TLS/HTTP streams and database text; all go through the TCP/HTTP/TLS/unified analyzers with and without filters, the three pools, analyze_pcap, the incremental readers/extractors, parsers, hash functions and every FromStr. Any panic (incl. arithmetic overflow), abnormal process death or confirmed non-return is a violation; every 64 hostile frames, and right after each crafted half-finished connection (also between the probes' own hosts), a set of probe connections on reserved addresses must be analysed exactly as by a fresh instance (every fourth time: a fresh instance on a new thread); every 512 hostile byte streams a probe stream (TLS, HTTP/1, HTTP/2 with dynamic-table back-references, Akamai one-shot and incremental) must give the values taken on a new thread before any hostile stream, on the working thread and on another new thread; captures with refused record headers go through analyze_pcap under the watchdog. Held = none observed.",
+  text="Exploration: ~2.5e6 (quick) / ~1e8 (thorough) hostile inputs: every truncation and (strided in quick) single-bit corruption of every packet of the four bundled captures and of synthesised connections, every (kind,length,position) TCP option encoding, IP header-length grids in three framings, complete HTTP/2 frames above the size limit, buffers and single 65000-octet segments filled with thousands of tiny records / frames (also through the pools' worker threads), a link-layer grid (every assigned EtherType and a stride over all others, stacked tags, loopback family words, on frames of 0..26 octets and full length), seeded structural mutation of frames, TLS/HTTP streams and database text; all go through the TCP/HTTP/TLS/unified analyzers with and without filters, the three pools, analyze_pcap, the incremental readers/extractors, parsers, hash functions and every FromStr. Any panic (incl. arithmetic overflow), abnormal process death or confirmed non-return is a violation; every 64 hostile frames, and right after each crafted half-finished connection (also between the probes' own hosts), a set of probe connections on reserved addresses must be analysed exactly as by a fresh instance (every fourth time: a fresh instance on a new thread); every 512 hostile byte streams a probe stream (TLS, HTTP/1, HTTP/2 with dynamic-table back-references, Akamai one-shot and incremental) must give the values taken on a new thread before any hostile stream, on the working thread and on another new thread; captures with refused record headers go through analyze_pcap under the watchdog. Held = none observed.",
   note="Non-termination is decided as bounded progress (20 s, then 60 s alone); memory safety only as far as the executed paths and Miri's reduced workload reach.",
   design="6 C01"),
  "C13": dict(
@@ -27,22 +27,22 @@ CHECKS = {
   design="6 C05"),
  "C06": dict(
   technique="runtime oracle: print/parse round-trip over the enumerated vocabulary + independent line-oriented reader of p0f text (p0fref.rs) + fault injection",
-  text="Exploration: ~9e6 (quick) / ~4.4e8 (thorough) judged items: every TTL/window/option/quirk form incl. all 65536 Distance pairs and layouts of length 0..40 round-trips value->text->value and line->value->line, all 298 bundled sig lines re-print identically, the bundled and 1e5 (quick) generated database texts load to exactly the content the reference reader sees (sections, labels, order, MTU groups, classes, ua_os), and ~130 single-fault texts must be rejected. Held = no difference.",
+  text="Exploration: ~9e6 (quick) / ~4.4e8 (thorough) judged items: every TTL/window/option/quirk form incl. all 65536 Distance pairs and layouts of length 0..40 round-trips value->text->value and line->value->line, all 298 bundled sig lines re-print identically, the bundled and 1e5 (quick) generated database texts load to exactly the content the reference reader sees (sections, labels, order, MTU groups, classes, ua_os), every fourth text again with an unknown section ([tcp:rst], [http], [tls:request] ...) inserted, which may be refused but must not change what the known sections hold, and ~130 single-fault texts must be rejected. Held = no difference.",
   note="Label Display round-trip and trailing junk after classes=/ua_os= are outside the judged domain.",
   design="6 C06"),
  "C08": dict(
   technique="runtime history monitor: per-segment return values of the incremental reader, of the packet-level TLS analyzer and of a TLS worker pool driven in lock-step, checked against the exactly-once-on-the-completing-segment rule and the one-segment result",
-  text="Exploration: ~1.6e6 (quick) / ~1.9e8 (thorough) judged histories: every 2-partition of hellos from 60 B to 16 KiB, every 3-partition of small hellos, byte-by-byte and random k-partitions, near-limit records, bytes after the record in the same or later segments, and 17 kinds of non-ClientHello records, through TlsClientHelloReader::add_bytes and HuginnNetTls packets (IPv4/IPv6, fresh analyzer every 256 episodes), and segment by segment through a TLS worker pool (1/2/4 workers) with idle gaps of several worker time-outs between segments; half of the packet episodes pad short Ethernet frames to the 60-octet minimum or append an FCS-like trailer. Held = every history had exactly one result on the completing segment equal to the single-segment one, and none otherwise.",
+  text="Exploration: ~1.6e6 (quick) / ~1.9e8 (thorough) judged histories: every 2-partition of hellos from 60 B to 16 KiB, every 3-partition of small hellos, byte-by-byte and random k-partitions, near-limit records, bytes after the record in the same or later segments, and 17 kinds of non-ClientHello records, through TlsClientHelloReader::add_bytes and HuginnNetTls packets (IPv4/IPv6, fresh analyzer every 256 episodes), and segment by segment through a TLS worker pool (1/2/4 workers) with idle gaps of several worker time-outs between segments, bursts in which a busy worker finds the interleaved segments of several connections waiting (batches of 32/64), server data between two client segments; half of the packet episodes pad short Ethernet frames to the 60-octet minimum or append an FCS-like trailer. Held = every history had exactly one result on the completing segment equal to the single-segment one, and none otherwise.",
   note="A later segment that starts a valid handshake record (second ClientHello) is outside the judged domain; the per-worker stage needs hook H2.",
   design="6 C08"),
  "C16": dict(
   technique="runtime oracle: generator-as-reference (full HPACK encoder + HTTP/2 framer, h2gen.rs) vs the decoded request/response; deviation model for one known finding (a static-table defect of the HPACK dependency)",
-  text="Exploration: ~4.4e5 (quick) / ~9e6 (thorough) encoded header lists: pseudo-header orders, 0..60 fields, cookie crumbs, every representation (indexed, three literal forms, name references, Huffman per string, dynamic references, size updates, non-minimal integers) x framings (plain, PADDED, PRIORITY, CONTINUATION at every byte for short blocks, unfinished) x control frames before and other frames after; method/path/authority/scheme/status, ordered headers, cookies, referer, user agent, language and signature parts must equal the encoded list. Held = only the listed known-finding deviation (static table entry 15 of hpack-patched) observed.",
+  text="Exploration: ~4.4e5 (quick) / ~9e6 (thorough) encoded header lists: pseudo-header orders, 0..60 fields, cookie crumbs, every representation (indexed, three literal forms, name references, Huffman per string, dynamic references, size updates, non-minimal integers) (incl. OPTIONS with :path *) x framings (plain, PADDED, PRIORITY, CONTINUATION at every byte for short blocks, unfinished) x control frames before and other frames after; method/path/authority/scheme/status, ordered headers, cookies, referer, user agent, language and signature parts must equal the encoded list. Held = only the listed known-finding deviation (static table entry 15 of hpack-patched) observed.",
   note="Encoder self-checked against RFC 7541 Appendix C; optional-mark/value-elision treatment of lower-case names is unjudged.",
   design="6 C16"),
  "C17": dict(
   technique="runtime oracle: independent Akamai S|WU|P|PS reference over generated frame sequences + history check of the incremental extractor over all chunkings",
-  text="Exploration: ~2e6 (quick) / ~7e7 (thorough) judged fingerprints: SETTINGS with known/unknown/duplicate ids, reserved bits, WINDOW_UPDATE variants, PRIORITY frames with exclusive bit and all weights, HEADERS with every pseudo-header order and flag combination, with/without preface, one-shot from bytes and from frames, and incrementally under one chunk, every 2-cut, byte-by-byte, frame-by-frame and random k-cuts (Some exactly once on the chunk completing the first SETTINGS, equal to the one-shot fingerprint so far); header blocks use size updates and dynamic back-references so that decoder state left by an earlier extraction would show, and every second history runs on an extractor that was reset() after earlier histories; streams with one oversized frame (16385..20084 octets) are judged differentially (incremental = one-shot of the bytes so far). Held = no difference.",
+  text="Exploration: ~2e6 (quick) / ~7e7 (thorough) judged fingerprints: SETTINGS with known/unknown/duplicate ids, reserved bits, WINDOW_UPDATE variants, PRIORITY frames with exclusive bit and all weights, HEADERS with every pseudo-header order and flag combination, with/without preface, one-shot from bytes and from frames, and incrementally under one chunk, every 2-cut, byte-by-byte, frame-by-frame and random k-cuts (Some exactly once on the chunk completing the first SETTINGS, equal to the one-shot fingerprint so far); header blocks use size updates and dynamic back-references so that decoder state left by an earlier extraction would show, and every second history runs on an extractor that was reset() after earlier histories; frames of 16370..16384 octets in front of the frames that matter; streams with one oversized frame (16385..20084 octets) are judged differentially (incremental = one-shot of the bytes so far). Held = no difference.",
   note="Reference checked against the published Chrome/Firefox strings; empty or malformed first SETTINGS run crash-only.",
   design="6 C17"),
  "C02": dict(
@@ -52,7 +52,7 @@ CHECKS = {
   design="6 C02"),
  "C11": dict(
   technique="runtime resource monitor: counting global allocator (thread-local and process-wide counters) read after every packet of long single connections and of over-capacity connection sets",
-  text="Exploration: 16 traffic kinds (unterminated HTTP heads, endless bodies, TLS application data after either hello, huge declared record, random bytes, 1-byte segments, timestamped ACKs, heads of the opposite role, several TLS records per segment, HTTP/2 DATA without HEADERS, pipelined requests, retransmission storm on seen sequence numbers, failing HPACK block that raised the table size followed by DATA) x 2 segment sizes (17th kind: a ClientHello fragment followed by a sequence hole and endless data) x HTTP/TLS/TCP/unified analyzers and one-worker pools, 2e4 (quick) / 1e6 (thorough) segments each, plus connection sets 1.2..4x the capacity and light sets of 40..400x the capacity in which every second connection is a complete exchange with header values seen nowhere else (sequential analyzers) and 8x the capacity inside one-worker HTTP/TLS pools whose queues are far longer than the capacity; retained bytes must stay <= 1 MiB per connection (capacity x 1 MiB overall) and the bytes allocated for one packet <= 4 MiB + 8 x its length at every index. Held = limits never crossed; evidence lists the maximum retained KiB per case.",
+  text="Exploration: 16 traffic kinds (unterminated HTTP heads, endless bodies, TLS application data after either hello, huge declared record, random bytes, 1-byte segments, timestamped ACKs, heads of the opposite role, several TLS records per segment, HTTP/2 DATA without HEADERS, pipelined requests, retransmission storm on seen sequence numbers, failing HPACK block that raised the table size followed by DATA) x 2 segment sizes (17th kind: a ClientHello fragment followed by a sequence hole and endless data) x HTTP/TLS/TCP/unified analyzers and one-worker pools, 2e4 (quick) / 1e6 (thorough) segments each, plus connection sets 1.2..4x the capacity and light sets of 40..400x the capacity in which every second connection is a complete exchange with header values seen nowhere else (sequential analyzers) and 8x the capacity inside one-worker HTTP/TLS pools whose queues are far longer than the capacity; retained bytes must stay <= 1 MiB per connection and must not grow by more than 64 KiB in the second half of a run; floods of 20000 frames into pools with queue sizes 0, 1, 2 must leave less than 2 MiB retained; (capacity x 1 MiB overall) and the bytes allocated for one packet <= 4 MiB + 8 x its length at every index. Held = limits never crossed; evidence lists the maximum retained KiB per case.",
   note="Allocation volume is the work proxy; limits are fixed generous constants. Needs hooks H2/H3 for the worker path (allocation counter sampled at the dequeue/processed points).",
   design="6 C11"),
  "C12": dict(
@@ -62,7 +62,7 @@ CHECKS = {
   design="6 C12"),
  "C15": dict(
   technique="runtime differential monitor: filtered analyzers/pools vs unfiltered analyzers on the sub-trace admitted by the C14 reference applied to the analyzer's own view of each frame",
-  text="Exploration: 24k (quick) / 600k (thorough) seeded traces mixing connections with odd frames (three framings incl. loopback family variants, IPv4 IHL 0..15, options, total-length lies, IPv6 with and without an extension header, non-TCP) x 3..6 filter configurations built from the trace's endpoints; filtered TCP/HTTP/TLS analyzers, filtered pools and the unified analyze_pcap must equal the unfiltered analyzer on the admitted sub-trace, every result a filtered analyzer emits is checked against the filter on its own endpoints, and each frame's raw-filter verdict is compared with the reference on the analyzer's view (~2.6e6 judged items quick). Held = no difference.",
+  text="Exploration: 24k (quick) / 600k (thorough) seeded traces mixing connections with odd frames (three framings incl. loopback family variants, IPv4 IHL 0..15, options, total-length lies, IPv6 with and without an extension header, non-TCP) x 3..6 filter configurations built from the trace's endpoints; filtered TCP/HTTP/TLS analyzers, filtered pools and the unified analyze_pcap must equal the unfiltered analyzer on the admitted sub-trace, every result a filtered analyzer emits is checked against the filter on its own endpoints, the opposite filter is asked about every frame right after the filter under test, the parallel TCP analyzer is used for two captures in a row, and each frame's raw-filter verdict is compared with the reference on the analyzer's view (~2.6e6 judged items quick). Held = no difference.",
   note="Needs hooks H1/H2/H3. Uses C14's reference function; frames the analyzer cannot attribute are allowed to pass.",
   design="6 C15"),
  "C20": dict(
@@ -72,12 +72,12 @@ CHECKS = {
   design="6 C20"),
  "C18": dict(
   technique="runtime monitors: metamorphic check of the shard hash functions + offline history checker (exactly-once, no-processing-after-drop, counter conservation, affinity) over the hook event log under concurrent dispatchers",
-  text="Exploration: (a) 30k (quick) / 1M (thorough) seeded identities x 3 pools x 9 worker counts x 6 identity-preserving variants (payload, flags, seq/ack, window, TTL, ID, TOS, IP options incl. IHL<5, TCP options, total length, framing) plus garbage/truncated frames; (b) 1.6k (quick) / 40k (thorough) pool runs with 1..8 dispatcher threads, queue sizes 0..1024, 40..300 unique frames each, perturbation at hook points; the recorded history must show exactly-once processing of queued frames, none of dropped ones, one worker per identity, and statistics equal to the outcomes returned. Held = no history violated the rules (one listed known finding about the HTTP per-worker drop counter).",
+  text="Exploration: (a) 30k (quick) / 1M (thorough) seeded identities x 3 pools x 9 worker counts x 6 identity-preserving variants (link layer incl. look-alike MAC addresses, payload, flags, seq/ack, window, TTL, ID, TOS, IP options incl. IHL<5, TCP options, total length, framing) plus garbage/truncated frames; (b) 1.6k (quick) / 40k (thorough) pool runs with 1..8 dispatcher threads, queue sizes 0..1024, 40..300 unique frames each, perturbation at hook points; the recorded history must show exactly-once processing of queued frames, none of dropped ones, one worker per identity, and statistics equal to the outcomes returned. Held = no history violated the rules (one listed known finding about the HTTP per-worker drop counter).",
   note="Needs hook H2. Exactly-once is observed at the WorkerProcessed hook point; frames are identified by content hash and are unique by construction.",
   design="6 C18"),
  "C10": dict(
   technique="runtime differential with event log: worker pools vs sequential analyzers on the same traces, logical drain detection through hook events, seeded schedule perturbation at hook points",
-  text="Exploration: 400 (quick) / 6000 (thorough) seeded traces of 10..200 connections x the TCP, HTTP and TLS pools x 3..6 configurations (workers 1..16, batch 1/2/32, timeout 1/10 ms, perturbation rates) plus lock-step runs with a moving virtual clock, pools built by the analyzers' with_config + init_pool driven in lock-step with queues of 2..6 frames, hub traces in which a few hosts take part in many connections, UDP / ICMP datagrams and truncated TCP segments of the same hosts between the connections' frames, and the parallel analyze_pcap entry; result multisets and per-connection/per-sender orders must equal the sequential run. Evidence counts the distinct result-arrival orders observed (schedule diversity). Held = no run differed; undrained or overflowing runs are inconclusive.",
+  text="Exploration: 400 (quick) / 6000 (thorough) seeded traces of 10..200 connections x the TCP, HTTP and TLS pools x 3..6 configurations (workers 1..16, batch 1/2/32, timeout 1/10 ms, perturbation rates) plus lock-step runs with a moving virtual clock, runs in which the pool is dropped while busy and the result channel is read until it closes, pools built by the analyzers' with_config + init_pool driven in lock-step with queues of 2..6 frames, hub traces in which a few hosts take part in many connections, UDP / ICMP datagrams and truncated TCP segments of the same hosts between the connections' frames, and the parallel analyze_pcap entry; result multisets and per-connection/per-sender orders must equal the sequential run. Evidence counts the distinct result-arrival orders observed (schedule diversity). Held = no run differed; undrained or overflowing runs are inconclusive.",
   note="Needs hooks H1, H2, H3. Only schedules that real threads plus perturbation produce are explored.",
   design="6 C10"),
  "C09": dict(
@@ -102,7 +102,7 @@ CHECKS = {
   design="6 C03"),
  "C14": dict(
   technique="runtime oracle: reference-model monitor over product-enumerated and seeded-random filter configurations (differential against an independent boolean function), evaluated on should_process and on the analyzers / worker pools with the filter installed (hook-based drain detection)",
-  text="Exploration: every combination of the listed port/address/subnet sub-filter variants in both modes is built through the public builder API of all four FilterConfig exports and evaluated at crossed boundary ports and addresses (quick ~2e8 judged decisions, thorough all pairs), then seeded random configurations probed at their own constants +-1; filters are put together through six different sequences of builder calls (list / single calls in any order, public port fields) with unsorted and repeated entries. A quarter (quick) / half (thorough) of the random configurations are also installed in the sequential TCP/HTTP/TLS analyzers and in their worker pools (direct and analyzer-built), and one packet per endpoint tuple must yield a result exactly when the documented function admits the tuple. Held = no decision differed from the documented rule on the explored points.",
+  text="Exploration: every combination of the listed port/address/subnet sub-filter variants in both modes is built through the public builder API of all four FilterConfig exports and evaluated at crossed boundary ports and addresses (quick ~2e8 judged decisions, thorough all pairs), then seeded random configurations probed at their own constants +-1; filters are put together through six different sequences of builder calls (list / single calls in any order, public port fields) with unsorted and repeated entries. A quarter (quick) / half (thorough) of the random configurations are also installed in the sequential TCP/HTTP/TLS analyzers and in their worker pools (direct and analyzer-built), and one packet per endpoint tuple must yield a result exactly when the documented function admits the tuple, while a second analyzer holding the opposite filter sees every packet right after the first. Held = no decision differed from the documented rule on the explored points.",
   note="Trusts the harness' own 40-line reference function (ref_filter) and std's IpAddr parsing; configurations not expressible through the builders or the public port fields are not explored. The analyzer-level stage needs hooks H2/H3.",
   design="6 C14"),
 }
